@@ -111,6 +111,10 @@ func (d *drv) cfgAddr(a int) string {
 		return "127.0.0.1"
 	case 13:
 		return fmt.Sprintf(":%d", d.ports[1])
+	case 14: // the wildcard address of legacy port 4, spelled as an IPv4 address
+		return fmt.Sprintf("0.0.0.0:%d", d.ports[3])
+	case 15: // ... and as an IPv6 address
+		return fmt.Sprintf("[::]:%d", d.ports[3])
 	}
 	return d.addr(a)
 }
@@ -335,9 +339,45 @@ func (d *drv) dial(addr string) (net.Conn, error) {
 	return nil, err
 }
 
-// tcpProbe: presents `hl` on addr; returns listening, id number, status
+// tcpProbe: presents `hl` on addr; returns listening, id number, status.  The connection is recognised in the exposition
+// as the one closed-connection series that moves; when a straggler of an earlier connection moves a second one, the
+// measurement is ambiguous and is repeated with a fresh connection.
 func (d *drv) tcpProbe(addr string, hl []byte) (bool, int, string, error) {
-	before, _, err := d.scrape()
+	var ln bool
+	var id int
+	var status string
+	var err error
+	for attempt := 0; attempt < 4; attempt++ {
+		ln, id, status, err = d.tcpProbeOnce(addr, hl)
+		if err == nil || !strings.Contains(err.Error(), "closed-connection series moved") {
+			return ln, id, status, err
+		}
+	}
+	return ln, id, status, err
+}
+
+// quiesce waits until two consecutive scrapes show the same closed-connection counters
+func (d *drv) quiesce() (map[string]float64, error) {
+	prev, _, err := d.scrape()
+	if err != nil {
+		return nil, err
+	}
+	for i := 0; i < 200; i++ {
+		time.Sleep(3 * time.Millisecond)
+		cur, _, err := d.scrape()
+		if err != nil {
+			return nil, err
+		}
+		if len(deltas(prev, cur, "shadowsocks_tcp_connections_closed{")) == 0 {
+			return cur, nil
+		}
+		prev = cur
+	}
+	return prev, nil
+}
+
+func (d *drv) tcpProbeOnce(addr string, hl []byte) (bool, int, string, error) {
+	before, err := d.quiesce()
 	if err != nil {
 		return false, 0, "", err
 	}
